@@ -68,6 +68,15 @@ def make_case(seed: int, tier: str, prop: str, opts=None) -> Dict[str, Any]:
         slow_sid = rng.choice(sc["sims"])["sid"]
         if has_agents and rng.random() < 0.6:
             slow_sid = sc["sims"][0]["sid"]          # the plant
+            if rng.random() < 0.7:
+                # ... and an in-process agent that asks it for data from inside every step (not served
+                # from the cache): the agent's step is suspended on that request for a long time
+                ags = [s_ for s_ in sc["sims"] if s_.get("stub") == "async"]
+                ag = rng.choice(ags)
+                ag["transport"] = rng.choice(["gated", "stock"])
+                ag["beh"]["async_calls"] = [{"kind": "get_data", "p": 1.0, "dst": f"{slow_sid}.e0", "attrs": ["p_out"]}] + \
+                    list(ag["beh"].get("async_calls") or [])
+                sc["config"]["cache"] = False
         sp["slow"] = {"sid": slow_sid, "delay": 30.0}
     return {"scenario": sc, "schedule": sp, "sample_seed": seed,
             "max_points": (10 if tier == "quick" else None),
